@@ -194,13 +194,22 @@ macro_rules! safe_join_rec_harness {
             let name = unsafe { core::str::from_utf8_unchecked(&buf[..len]) };
             let base = Path::new("/b");
             let r = safe_join(base, name);
-            let bad = unsafe { C17_PUSH_BAD };
-            let pushes = unsafe { C17_PUSHES };
+            // Under Kani the recording model of PathBuf::push decides; in a native playback of a
+            // counterexample (no stubbing there) the real std functions ran, so the returned path itself is
+            // examined: it must start with the base and contain no `..` component.
+            let bad = if cfg!(kani) {
+                unsafe { C17_PUSH_BAD }
+            } else {
+                match r {
+                    Some(ref p) => !stays_below(b"/b", p.as_os_str().as_encoded_bytes()),
+                    None => false,
+                }
+            };
             if r.is_some() {
                 // a path is handed to the file system only if nothing pushed onto the base could leave it
                 assert!(!bad);
             }
-            kani::cover!(r.is_some() && len == $n && pushes >= 2);
+            kani::cover!(r.is_some() && len == $n);
             kani::cover!(r.is_none() && len == $n);
             core::mem::forget(r);
         }
@@ -208,10 +217,131 @@ macro_rules! safe_join_rec_harness {
 }
 
 // @verif-block props=C17 group=core doc=safe_join(base="/b",name)_for_EVERY_name_of_up_to_N_bytes_over_the_listed_alphabet:_if_a_path_is_returned,_no_argument_handed_to_PathBuf::push_starts_with_'/'_(would_replace_the_base)_or_contains_a_".."_component,_hence_the_path_stays_beneath_the_base_by_std's_documented_push_semantics
+safe_join_rec_harness!(c17_join_rec_1b, 1, 9, [b'.', b'/', b'\\', b'a']); // tier=quick cap=900
 safe_join_rec_harness!(c17_join_rec_2b, 2, 9, [b'.', b'/', b'\\', b'a']); // tier=quick cap=900
 safe_join_rec_harness!(c17_join_rec_3b, 3, 6, [b'.', b'/', b'\\', b'a']); // tier=quick cap=900
 safe_join_rec_harness!(c17_join_rec_4b, 4, 7, [b'.', b'/', b'\\', b'a']); // tier=quick cap=1200
 safe_join_rec_harness!(c17_join_rec_5b, 5, 8, [b'.', b'/', b'\\', b'a', 0u8]); // tier=thorough cap=2400
+// @verif-end
+
+
+// ---------------------------------------------------------------------------
+// C15: the two-tier template store.  `CompiledTemplate::new` (lexer + parser + code generator: minutes of
+// CBMC time per call, see DESIGN Part II) is replaced by a model that "compiles" every source except one
+// starting with '!' and remembers the source text; everything else - LoaderStore::{insert_cow, remove,
+// clear, get}, the BTreeMap of borrowed templates, memo_map's Mutex<HashMap>, the self_cell around owned
+// templates - is the real code.  One harness per (pre-state, operation); whether the added source
+// compiles is symbolic.  Oracle: a one-entry reference map (name "a" -> first byte of its source).
+// ---------------------------------------------------------------------------
+pub(crate) fn compile_model<'s>(
+    name: &'s str,
+    source: &'s str,
+    config: &TemplateConfig,
+) -> Result<CompiledTemplate<'s>, Error>
+where
+    's: 's,
+{
+    if source.as_bytes()[0] == b'!' {
+        return Err(Error::from(ErrorKind::SyntaxError));
+    }
+    Ok(CompiledTemplate {
+        instructions: Instructions::new(name, source),
+        blocks: BTreeMap::new(),
+        buffer_size_hint: 0,
+        syntax_config: config.syntax_config.clone(),
+        initial_auto_escape: crate::AutoEscape::None,
+    })
+}
+
+fn c15_no_escape(_name: &str) -> crate::AutoEscape {
+    crate::AutoEscape::None
+}
+
+/// What the store serves under `name`: 0 = no such template, otherwise the first byte of its source.
+fn c15_view(store: &LoaderStore<'_>, name: &str) -> u8 {
+    match store.get(name) {
+        Ok(t) => t.instructions.source().as_bytes()[0],
+        Err(e) => {
+            core::mem::forget(e);
+            0
+        }
+    }
+}
+
+fn c15_src(first: u8) -> &'static str {
+    let b: &'static mut [u8; 1] = Box::leak(Box::new([first]));
+    unsafe { core::str::from_utf8_unchecked(&b[..]) }
+}
+
+macro_rules! c15_step_harness {
+    ($name:ident, $pre:expr, $op:expr) => {
+        #[kani::proof]
+        #[kani::unwind(10)]
+        #[kani::stub(std::hash::RandomState::new, crate::verif_common::random_state_stub)]
+        #[kani::stub(alloc::fmt::format, crate::verif_common::format_stub)]
+        #[kani::stub(crate::template::CompiledTemplate::new, compile_model)]
+        #[kani::stub(alloc::sync::Arc::drop_slow, crate::verif_common::arc_drop_slow_leak)]
+        fn $name() {
+            let mut store = LoaderStore::new(TemplateConfig::new(Arc::new(c15_no_escape)));
+            // pre-state: "a" absent (0), added borrowed (1), added owned (2)
+            let mut model: u8 = 0;
+            if $pre == 1 {
+                let r = store.insert_cow(Cow::Borrowed("a"), Cow::Borrowed("B"));
+                assert!(r.is_ok());
+                core::mem::forget(r);
+                model = b'B';
+            } else if $pre == 2 {
+                let r = store.insert_cow(Cow::Owned("a".to_string()), Cow::Owned("O".to_string()));
+                assert!(r.is_ok());
+                core::mem::forget(r);
+                model = b'O';
+            }
+            assert!(c15_view(&store, "a") == model);
+            let bad: bool = kani::any();
+            let first = if bad { b'!' } else { b'n' };
+            // the operation
+            if $op == 0 {
+                let r = store.insert_cow(Cow::Borrowed("a"), Cow::Borrowed(c15_src(first)));
+                assert!(r.is_err() == bad);
+                if !bad {
+                    model = first;
+                }
+                core::mem::forget(r);
+            } else if $op == 1 {
+                let r = store.insert_cow(Cow::Owned("a".to_string()), Cow::Owned(c15_src(first).to_string()));
+                assert!(r.is_err() == bad);
+                if !bad {
+                    model = first;
+                }
+                core::mem::forget(r);
+            } else if $op == 2 {
+                store.remove("a");
+                model = 0;
+            } else {
+                store.clear();
+                model = 0;
+            }
+            // an addition that fails to compile leaves the store as it was; every other operation
+            // gives what a fresh store with the same final contents gives
+            assert!(c15_view(&store, "a") == model);
+            kani::cover!(bad);
+            kani::cover!(!bad);
+            core::mem::forget(store);
+        }
+    };
+}
+
+// @verif-block props=C15 tier=experimental cap=900 group=core doc=one_LoaderStore_operation_from_each_of_three_pre-states_(name_absent,_added_borrowed,_added_owned):_the_template_served_afterwards_equals_a_one-entry_reference_map;_an_addition_whose_source_does_not_compile_(symbolic)_leaves_the_served_template_unchanged;_CompiledTemplate::new_replaced_by_a_model
+c15_step_harness!(c15_absent_add_borrowed, 0, 0);
+c15_step_harness!(c15_absent_add_owned, 0, 1);
+c15_step_harness!(c15_borrowed_add_borrowed, 1, 0);
+c15_step_harness!(c15_borrowed_add_owned, 1, 1);
+c15_step_harness!(c15_borrowed_remove, 1, 2);
+c15_step_harness!(c15_borrowed_clear, 1, 3);
+c15_step_harness!(c15_owned_add_borrowed, 2, 0);
+c15_step_harness!(c15_owned_add_owned, 2, 1);
+c15_step_harness!(c15_owned_remove, 2, 2);
+c15_step_harness!(c15_owned_clear, 2, 3);
 // @verif-end
 
 #[cfg(test)]
